@@ -6,6 +6,7 @@ import (
 	"time"
 
 	"go.nanomsg.org/mangos/v3"
+	"go.nanomsg.org/mangos/v3/vh/c04"
 	"go.nanomsg.org/mangos/v3/vh/kinds"
 	"go.nanomsg.org/mangos/v3/vh/kit"
 	"go.nanomsg.org/mangos/v3/vh/vt"
@@ -22,6 +23,8 @@ func init() {
 			full = true
 		}
 		var out []*vexplore.Scenario
+		out = append(out, &vexplore.Scenario{Name: "req-slow-peer-hist", Mode: "hist", Reset: kit.ResetGlobals, Cfg: vsched.Config{Race: true},
+			Body: func() { c04.SlowPeerHist(map[bool]int{false: 5, true: 6}[full]) }})
 		for _, k := range kinds.All {
 			k := k
 			out = append(out, &vexplore.Scenario{Name: "two-threads:" + k.Name, Mode: "sched", Bound: b, Reset: kit.ResetGlobals,
@@ -44,6 +47,8 @@ type world struct {
 	ctx  mangos.Context
 	pipe mangos.Pipe
 	n    int
+	hook mangos.PipeEventHook
+	attached, detached int
 }
 
 func setopt(name string, val interface{}) op {
@@ -84,7 +89,8 @@ var ops = []op{
 	{name: "Dial", mutator: true, run: func(w *world) error { vt.Get("c11-d").Script(vt.DialOK); return w.x.S.Dial("vt://c11-d") }},
 	{name: "Listen", mutator: true, run: func(w *world) error { return w.x.S.Listen("vt://c11-l") }},
 	{name: "peer-connects", mutator: true, run: func(w *world) error { w.x.EP.Connect(); return nil }},
-	{name: "SetPipeEventHook", mutator: true, run: func(w *world) error { w.x.S.SetPipeEventHook(func(mangos.PipeEvent, mangos.Pipe) {}); return nil }},
+	{name: "SetPipeEventHook", mutator: true, run: func(w *world) error { w.x.S.SetPipeEventHook(w.hook); return nil }},
+	{name: "peer-connects-and-hangs-up", mutator: true, run: func(w *world) error { p := w.x.EP.Connect(); p.DropNow(); return nil }},
 	{name: "Close", mutator: true, run: func(w *world) error { return w.x.S.Close() }},
 }
 
@@ -100,11 +106,18 @@ func twoThreads(k *kinds.Kind, full bool) {
 	if err != nil {
 		kit.Failf("setup", "NewSocket: %v", err)
 	}
-	s.SetPipeEventHook(func(ev mangos.PipeEvent, p mangos.Pipe) {
-		if ev == mangos.PipeEventAttached && w.pipe == nil {
-			w.pipe = p
+	w.hook = func(ev mangos.PipeEvent, p mangos.Pipe) {
+		switch ev {
+		case mangos.PipeEventAttached:
+			w.attached++
+			if w.pipe == nil {
+				w.pipe = p
+			}
+		case mangos.PipeEventDetached:
+			w.detached++
 		}
-	})
+	}
+	s.SetPipeEventHook(w.hook)
 	w.x = &kinds.Sock{K: k, S: s, EP: vt.Get("c11")}
 	if err := s.Listen("vt://c11"); err != nil {
 		kit.Failf("setup", "Listen: %s", kit.ErrName(err))
@@ -168,5 +181,14 @@ func twoThreads(k *kinds.Kind, full bool) {
 	kit.Quiesce()
 	if !cc.Done() {
 		kit.Failf("close-blocks:"+k.Name, "%s: Close blocks after %s || %s", k.Name, ops[a].name, ops[b].name)
+	}
+	// nothing of the socket survives its Close, whatever the two calls did
+	kit.Sleep(time.Hour)
+	kit.Quiesce()
+	if w.attached != w.detached {
+		kit.Failf("lifecycle-unbalanced:"+k.Name, "%s after %s || %s and Close: %d pipe(s) attached, %d detached", k.Name, ops[a].name, ops[b].name, w.attached, w.detached)
+	}
+	if bad := kit.Census(); bad != "" {
+		kit.Failf("leak-after-close:"+k.Name, "%s after %s || %s and Close: %s", k.Name, ops[a].name, ops[b].name, bad)
 	}
 }
